@@ -114,6 +114,10 @@ type taintEngine struct {
 	busy       map[ssa.Value]bool
 	retMemo    map[*ssa.Function][]tset
 	retBusy    map[*ssa.Function]bool
+	// wireChecked: see wireCheckedFields
+	wireChecked map[string]bool
+	// wireDecoders: wire type -> functions in which a value of that type is decoded
+	wireDecoders map[string]map[*ssa.Function]bool
 }
 
 var decodeCalls = map[string]int{ // callee -> index of the destination argument
@@ -130,7 +134,7 @@ var decodeCalls = map[string]int{ // callee -> index of the destination argument
 
 func newTaintEngine(p *Prog) *taintEngine {
 	t := &taintEngine{p: p, wire: map[string]string{}, wireAllocs: map[ssa.Value]string{}, fieldTaint: map[string]tset{},
-		memo: map[ssa.Value]tset{}, busy: map[ssa.Value]bool{}, retMemo: map[*ssa.Function][]tset{}, retBusy: map[*ssa.Function]bool{}}
+		memo: map[ssa.Value]tset{}, busy: map[ssa.Value]bool{}, retMemo: map[*ssa.Function][]tset{}, retBusy: map[*ssa.Function]bool{}, wireDecoders: map[string]map[*ssa.Function]bool{}}
 	t.findWire()
 	t.propagateFields()
 	return t
@@ -254,11 +258,48 @@ func (t *taintEngine) findWire() {
 							}
 						}
 						t.markWireType(ty, how, 0)
+						for _, tn := range t.wireTypeNames(ty, 0) {
+							if t.wireDecoders[tn] == nil {
+								t.wireDecoders[tn] = map[*ssa.Function]bool{}
+							}
+							t.wireDecoders[tn][fn] = true
+						}
 					}
 				}
 			}
 		}
 	}
+}
+
+// wireTypeNames: the named struct types reachable from ty the way markWireType walks it.
+func (t *taintEngine) wireTypeNames(ty types.Type, depth int) []string {
+	if depth > 4 {
+		return nil
+	}
+	switch x := ty.(type) {
+	case *types.Pointer:
+		return t.wireTypeNames(x.Elem(), depth+1)
+	case *types.Slice:
+		return t.wireTypeNames(x.Elem(), depth+1)
+	case *types.Array:
+		return t.wireTypeNames(x.Elem(), depth+1)
+	}
+	var out []string
+	st, ok := ty.Underlying().(*types.Struct)
+	if !ok {
+		return nil
+	}
+	if n, ok := ty.(*types.Named); ok && n.Obj().Pkg() != nil {
+		out = append(out, typeName(t.p, n))
+	}
+	for i := 0; i < st.NumFields(); i++ {
+		ft := st.Field(i).Type()
+		switch ft.Underlying().(type) {
+		case *types.Struct, *types.Array, *types.Slice, *types.Pointer:
+			out = append(out, t.wireTypeNames(ft, depth+1)...)
+		}
+	}
+	return out
 }
 
 func (t *taintEngine) isWireField(v ssa.Value) (string, int, bool) {
@@ -942,4 +983,410 @@ func (t *taintEngine) scan() []taintFinding {
 		return a.What < b.What
 	})
 	return out
+}
+
+// ---------------------------------------------------------------------------------
+// positions: indexes and slice bounds computed from decoded values (kind "index")
+
+type idxOpts struct {
+	// values the indexed buffer was sized with: a comparison against one of them bounds the position
+	sizeGroup map[ssa.Value]bool
+	// length of the indexed array when it is fixed, else 0: only constants up to it bound the position
+	arrayLen int64
+}
+
+func (t *taintEngine) inGroupFn(g map[ssa.Value]bool, keys map[string]bool) func(ssa.Value) bool {
+	return func(v ssa.Value) bool {
+		hit := false
+		seen := map[ssa.Value]bool{}
+		var walk func(v ssa.Value, d int)
+		walk = func(v ssa.Value, d int) {
+			if v == nil || seen[v] || d > 12 || hit {
+				return
+			}
+			seen[v] = true
+			if g[v] {
+				hit = true
+				return
+			}
+			switch x := v.(type) {
+			case *ssa.Convert:
+				walk(x.X, d+1)
+			case *ssa.ChangeType:
+				walk(x.X, d+1)
+			case *ssa.BinOp:
+				walk(x.X, d+1)
+				walk(x.Y, d+1)
+			case *ssa.Phi:
+				for _, e := range x.Edges {
+					walk(e, d+1)
+				}
+			case *ssa.UnOp:
+				if x.Op == token.MUL {
+					if k := t.p.memKey(x.X); k != "" && keys[k] {
+						hit = true
+					}
+				} else {
+					walk(x.X, d+1)
+				}
+			case *ssa.Field:
+				if tn, f, _ := t.p.fieldLoad(x); tn != "" && keys["f:"+tn+"."+f] {
+					hit = true
+				}
+			}
+		}
+		walk(v, 0)
+		return hit
+	}
+}
+
+// upperBoundBy: does comparing a position with `other` bound it from above?
+func (t *taintEngine) upperBoundBy(other ssa.Value, o idxOpts) bool {
+	if k, isK := constInt(other); isK {
+		return k > 0 && (o.arrayLen == 0 || k <= o.arrayLen)
+	}
+	if o.arrayLen != 0 {
+		// a fixed array is bounded by a constant (its len() is one) only
+		return false
+	}
+	if o.sizeGroup != nil {
+		in := t.inGroupFn(o.sizeGroup, nil)
+		if in(other) {
+			return true
+		}
+	}
+	if _, src := t.taint(other).anySrc(); src {
+		return false
+	}
+	return true
+}
+
+// indexGuards: blocks of fn after which a position in the group is bounded from above: an
+// ordered comparison with a bounding value, or a call handing it to a function that makes one.
+func (t *taintEngine) indexGuards(fn *ssa.Function, g map[ssa.Value]bool, keys map[string]bool, o idxOpts, depth int) map[int]bool {
+	out := map[int]bool{}
+	inGroup := t.inGroupFn(g, keys)
+	for _, b := range fn.Blocks {
+		for _, in := range b.Instrs {
+			switch x := in.(type) {
+			case *ssa.If:
+				cond := x.Cond
+				for {
+					if u, ok := cond.(*ssa.UnOp); ok && u.Op == token.NOT {
+						cond = u.X
+						continue
+					}
+					break
+				}
+				bo, ok := cond.(*ssa.BinOp)
+				if !ok {
+					continue
+				}
+				switch bo.Op {
+				case token.LSS, token.LEQ, token.GTR, token.GEQ:
+					gx, gy := inGroup(bo.X), inGroup(bo.Y)
+					if gx == gy {
+						continue
+					}
+					other := bo.Y
+					if gy {
+						other = bo.X
+					}
+					if t.upperBoundBy(other, o) {
+						out[b.Index] = true
+					}
+				}
+			case *ssa.Call:
+				if depth >= 2 {
+					continue
+				}
+				sc := x.Common().StaticCallee()
+				if sc == nil || len(sc.Blocks) == 0 || sc.Signature.Results().Len() == 0 {
+					continue
+				}
+				for k, a := range x.Common().Args {
+					if k >= len(sc.Params) || intWidth(a.Type()) == 0 || !inGroup(a) {
+						continue
+					}
+					pg, pk := t.derivGroup(sc.Params[k])
+					pg[sc.Params[k]] = true
+					if len(t.indexGuards(sc, pg, pk, idxOpts{arrayLen: o.arrayLen}, depth+1)) > 0 {
+						out[b.Index] = true
+					}
+				}
+			}
+		}
+	}
+	return out
+}
+
+func (t *taintEngine) indexUnchecked(fn *ssa.Function, sink ssa.Instruction, v ssa.Value, o idxOpts) (bool, []string) {
+	g, keys := t.derivGroup(v)
+	cb := t.indexGuards(fn, g, keys, o, 0)
+	// a comparison that ends the sink's own block comes after the sink; a validating call in it
+	// counts only when it precedes the sink
+	if cb[sink.Block().Index] {
+		before := false
+		inGroup := t.inGroupFn(g, keys)
+		for _, in := range sink.Block().Instrs {
+			if in == sink {
+				break
+			}
+			if call, ok := in.(*ssa.Call); ok {
+				for _, a := range call.Common().Args {
+					if intWidth(a.Type()) > 0 && inGroup(a) {
+						before = true
+					}
+				}
+			}
+		}
+		if before {
+			return false, nil
+		}
+		delete(cb, sink.Block().Index)
+	}
+	del := map[edge]bool{}
+	for bi := range cb {
+		for si := range fn.Blocks[bi].Succs {
+			del[edge{bi, si}] = true
+		}
+	}
+	pred := map[int]int{}
+	seen := reach(fn, []*ssa.BasicBlock{fn.Blocks[0]}, del, pred)
+	if seen[sink.Block().Index] {
+		return true, t.p.witness(fn, pred, sink.Block().Index)
+	}
+	return false, nil
+}
+
+// wireKeyOf extracts "pkg.Type.field" from a label's origin text.
+func wireKeyOf(origin string) string {
+	origin = strings.TrimPrefix(origin, "shift by ")
+	if i := strings.Index(origin, " ("); i > 0 {
+		return origin[:i]
+	}
+	return ""
+}
+
+// wireCheckedFields: wire fields that a function which decodes the record bounds from above (directly
+// or through a validating call). Existence in the decoder is enough here: the rule then trusts that field wherever it is used
+// as a position in a buffer of variable size.
+func (t *taintEngine) wireCheckedFields() map[string]bool {
+	if t.wireChecked != nil {
+		return t.wireChecked
+	}
+	t.wireChecked = map[string]bool{}
+	p := t.p
+	for _, fn := range p.Funcs {
+		// candidate values: loads of wire fields in this function
+		for _, b := range fn.Blocks {
+			for _, in := range b.Instrs {
+				v, ok := in.(ssa.Value)
+				if !ok || intWidth(v.Type()) == 0 {
+					continue
+				}
+				o, _, isW := t.isWireField(v)
+				if !isW {
+					continue
+				}
+				key := wireKeyOf(o)
+				if key == "" || t.wireChecked[key] {
+					continue
+				}
+				// only where the record is decoded: a comparison somewhere else says nothing about
+				// the value other users of the record see
+				if i := strings.LastIndex(key, "."); i < 0 || !t.wireDecoders[key[:i]][fn] {
+					continue
+				}
+				g := map[ssa.Value]bool{v: true}
+				if len(t.indexGuards(fn, g, nil, idxOpts{}, 0)) > 0 {
+					t.wireChecked[key] = true
+				}
+			}
+		}
+	}
+	return t.wireChecked
+}
+
+// bufferSize: the value(s) the indexed buffer was created with, when it was created here.
+func bufferSizeGroup(t *taintEngine, x ssa.Value) map[ssa.Value]bool {
+	leaves := map[ssa.Value]bool{}
+	seen := map[ssa.Value]bool{}
+	var walk func(v ssa.Value, d int)
+	walk = func(v ssa.Value, d int) {
+		if v == nil || seen[v] || d > 12 {
+			return
+		}
+		seen[v] = true
+		switch y := v.(type) {
+		case *ssa.Slice:
+			walk(y.X, d+1)
+		case *ssa.Phi:
+			for _, e := range y.Edges {
+				walk(e, d+1)
+			}
+		default:
+			leaves[v] = true
+		}
+	}
+	walk(x, 0)
+	if len(leaves) != 1 {
+		return nil
+	}
+	for leaf := range leaves {
+		switch y := leaf.(type) {
+		case *ssa.MakeSlice:
+			g, _ := t.derivGroup(y.Len)
+			g[y.Len] = true
+			return g
+		case *ssa.Extract:
+			if call, ok := y.Tuple.(*ssa.Call); ok && t.p.calleeName(call.Common()) == "(*bufio.Reader).Peek" && y.Index == 0 {
+				g, _ := t.derivGroup(call.Call.Args[1])
+				g[call.Call.Args[1]] = true
+				return g
+			}
+		}
+	}
+	return nil
+}
+
+// scanIndex examines every index and slice bound of the module: a position computed from a
+// value decoded from input must be bounded from above on every path before it is used.
+// Masked or reduced positions (x & k, x % k, x >> k) are bounded by construction; a buffer
+// created with a size computed from the same value holds every position up to it.
+func (t *taintEngine) scanIndex() []taintFinding {
+	p := t.p
+	var out []taintFinding
+	reduced := func(v ssa.Value) bool {
+		for {
+			switch x := v.(type) {
+			case *ssa.Convert:
+				v = x.X
+				continue
+			case *ssa.ChangeType:
+				v = x.X
+				continue
+			case *ssa.BinOp:
+				return x.Op == token.REM || x.Op == token.AND || x.Op == token.SHR
+			}
+			return false
+		}
+	}
+	checked := t.wireCheckedFields()
+	for _, fn := range p.Funcs {
+		n := 0
+		examine := func(in ssa.Instruction, buf, v ssa.Value, what string) {
+			if v == nil {
+				return
+			}
+			if _, ok := v.(*ssa.Const); ok {
+				return
+			}
+			if reduced(v) {
+				return
+			}
+			o := idxOpts{}
+			bt := buf.Type().Underlying()
+			if pt, ok := bt.(*types.Pointer); ok {
+				bt = pt.Elem().Underlying()
+			}
+			if at, ok := bt.(*types.Array); ok {
+				o.arrayLen = at.Len()
+			}
+			quantity := v
+			note := ""
+			// a loop counter is as large as the bound it runs to
+			if ph, ok := stripConv(v).(*ssa.Phi); ok && o.arrayLen != 0 {
+				if bound := loopBoundOf(ph); bound != nil {
+					quantity = bound
+					note = "loop counter running to "
+				}
+			}
+			ls := t.taint(quantity)
+			origin, isSrc := "", false
+			for _, l := range ls {
+				if l.param >= 0 {
+					continue
+				}
+				if o.arrayLen == 0 && checked[wireKeyOf(l.origin)] {
+					continue
+				}
+				origin, isSrc = l.origin, true
+				break
+			}
+			if !isSrc {
+				return
+			}
+			if o.arrayLen == 0 {
+				o.sizeGroup = bufferSizeGroup(t, buf)
+				if o.sizeGroup != nil && t.inGroupFn(o.sizeGroup, nil)(quantity) {
+					// the buffer was created with (at least) this size
+					n++
+					out = append(out, taintFinding{Fn: fn, Instr: in, Kind: "index", What: fmt.Sprintf("%s#%d", what, n), Origin: origin + " (the buffer was created with a size computed from it)", OK: true})
+					return
+				}
+			}
+			n++
+			unc, path := t.indexUnchecked(fn, in, quantity, o)
+			out = append(out, taintFinding{Fn: fn, Instr: in, Kind: "index", What: fmt.Sprintf("%s#%d", what, n), Origin: note + origin, Path: path, OK: !unc})
+		}
+		for _, b := range fn.Blocks {
+			for _, in := range b.Instrs {
+				switch x := in.(type) {
+				case *ssa.IndexAddr:
+					examine(x, x.X, x.Index, "index")
+				case *ssa.Index:
+					if _, isMap := x.X.Type().Underlying().(*types.Map); !isMap {
+						examine(x, x.X, x.Index, "index")
+					}
+				case *ssa.Slice:
+					if _, isStr := x.X.Type().Underlying().(*types.Basic); isStr {
+						// strings: same rule
+					}
+					examine(x, x.X, x.Low, "slice")
+					examine(x, x.X, x.High, "slice")
+					examine(x, x.X, x.Max, "slice")
+				}
+			}
+		}
+	}
+	sort.SliceStable(out, func(i, j int) bool {
+		a, b := out[i], out[j]
+		if p.FName(a.Fn) != p.FName(b.Fn) {
+			return p.FName(a.Fn) < p.FName(b.Fn)
+		}
+		return a.What < b.What
+	})
+	return out
+}
+
+// loopBoundOf: ph is a counter (one constant edge, one edge ph+k); returns the value it is compared
+// with by the loop condition.
+func loopBoundOf(ph *ssa.Phi) ssa.Value {
+	counter := false
+	for _, e := range ph.Edges {
+		if bo, ok := stripConv(e).(*ssa.BinOp); ok && bo.Op == token.ADD && (stripConv(bo.X) == ssa.Value(ph) || stripConv(bo.Y) == ssa.Value(ph)) {
+			counter = true
+		}
+	}
+	if !counter || ph.Referrers() == nil {
+		return nil
+	}
+	for _, r := range *ph.Referrers() {
+		bo, ok := r.(*ssa.BinOp)
+		if !ok {
+			continue
+		}
+		switch bo.Op {
+		case token.LSS, token.LEQ:
+			if bo.X == ssa.Value(ph) {
+				return bo.Y
+			}
+		case token.GTR, token.GEQ:
+			if bo.Y == ssa.Value(ph) {
+				return bo.X
+			}
+		}
+	}
+	return nil
 }
